@@ -151,7 +151,9 @@ CheckAmbig(rec) ==
 \* ------------------------------------------------------------------ SemanticError position (C16)
 \* tree = [off, kind, eoff, eptr]: the text is valid JSON that fits the target type except for the
 \* value starting at off; Unmarshal must report a SemanticError whose ByteOffset is the start of
-\* that value and whose JSONPointer designates it
+\* that value and whose JSONPointer designates it.  (The same record serves positions on the way
+\* out: texts[1] is what Marshal wrote, off the offset of a number written by a caller's function,
+\* eptr the Encoder's StackPointer right after it was written.)
 CheckSemErr(rec) ==
     IF rec.texts = <<>> THEN <<>>
     ELSE
@@ -164,6 +166,9 @@ CheckSemErr(rec) ==
     ELSE IF rec.tree.kind # "semantic" THEN <<"C16", "no-semantic-error", rec.tree.kind>>
     ELSE IF rec.tree.eoff # rec.tree.off THEN <<"C16", "semantic-error-offset", rec.tree.off>>
     ELSE IF rec.tree.eptr # PointerOf(stk) THEN <<"C16", "semantic-error-pointer", PointerOf(stk)>>
+    \* UnmarshalRead of the same text, however the reader cuts it, ends with the same error
+    ELSE IF \E k \in 1..Len(rec.tree.streams) : rec.tree.streams[k] # <<rec.tree.kind, rec.tree.eoff, rec.tree.eptr>>
+         THEN <<"C05+C16", "stream-error-differs", <<rec.tree.kind, rec.tree.eoff, rec.tree.eptr>>>>
     ELSE <<>>
 
 Check(rec) ==
